@@ -207,7 +207,8 @@ class ObjectsDriver:
                 sig, body = ('i', [5]) if sin != 'i' else ('s', ['x'])
             sender = ':1.5%d' % cid
             mc = message.MethodCallMessage(c['path'], c['member'], interface=c['iface'] or None, destination=':1.2',
-                                           signature=sig, body=body, expectReply=not c['noreply'])
+                                           signature=sig, body=body, expectReply=not c['noreply'],
+                                           autoStart=(cid % 2 == 0))          # NO_AUTO_START on every other call
             pm = message.parseMessage(mc.rawMessage, [])
             pm.sender = sender
             self.calls.append((c, pm.serial, sender, arg))
